@@ -141,6 +141,8 @@ class World:
                   tetrad=c["tetrad"], lmax=c.get("lmax", 2))
         if c.get("extract_radii") is not None:
             kw["extract_radii"] = c["extract_radii"]
+        if c.get("center") is not None:
+            kw["center"] = tuple(c["center"])
         if cache:
             kw["clear_cache_every_nbr_calc"] = c["clear_every"]
             kw["memory_threshold_inGB"] = c["mem_gb"]
@@ -394,6 +396,10 @@ def strategies():
                    freeze=draw(st.sampled_from(["freeze_data", "load_data",
                                                 "hand_then_load_data"])))
         if draw(st.integers(0, 3)) == 0:
+            # non-default centre of the extraction spheres / horizon finder
+            cfg["center"] = [draw(st.sampled_from([0.0, 1.0, -2.0, 0.5])) * x
+                             for x in h]
+        if draw(st.integers(0, 3)) == 0:
             cand = [k for k in ("kxx", "kyz", "Kdown3", "gxx", "gammadown3",
                                 "alpha", "betay", "betaup3", "Tdown4")]
             cfg["nan_at"] = [[draw(st.sampled_from(cand)),
@@ -509,6 +515,10 @@ class Run:
         self.tracked = {}     # id -> (array, digest, label)
         for k, v in self.inputs.items():
             self.track(v, f"input:{k}")
+        # the grid object is user-supplied too (and shared between instances)
+        for k, v in sorted(vars(self.fd).items()):
+            if isinstance(v, np.ndarray):
+                self.track(v, f"fd.{k}")
         self.prev_keys = set(self.rel.data)
         self.prev_count = 0
         self.seen_keys = set()
